@@ -37,10 +37,13 @@ deriving DecidableEq, Repr
 
 structure State where
   mode : Mode
+  es : Bool := false            -- the handler has an `EventStore`
   next : Nat := 0               -- ids minted so far (`legacy` only)
   nslow : Nat := 0              -- the harness's slot counter
   released : List Nat := []
   slow : List Slow := []        -- temporary sessions in progress, oldest first
+  failClosed : Bool := false    -- the store's `SessionClosed` currently fails (`fault c`)
+  closing : List Nat := []      -- one entry per server-side `Close()` that waits for the handler in that slot
 deriving DecidableEq, Repr
 
 def names (s : State) : List Name := s.slow.map (·.name)
@@ -68,6 +71,9 @@ def logOf (nm : Name) (u : UserTok) : PKind → List LogEnt
 
 def rejectObs (s : State) (c : Nat) : Obs := { status := .code c, srv := names s }
 
+/-- `streamableServerConn.Close`: the event store (if any) is told that the session is over. -/
+def told (s : State) (nm : Name) : List Name := if s.es then [nm] else []
+
 /-- One harness operation. `none`: the operation is not part of these configurations' alphabet. -/
 def modelOp (s : State) (op : Op) : Option (State × Obs) :=
   match op with
@@ -82,16 +88,19 @@ def modelOp (s : State) (op : Op) : Option (State × Obs) :=
         | .slow =>
           let s3 := { s2 with slow := s2.slow ++ [⟨s2.nslow, nm⟩] }
           some (s3, { status := .pending, srv := names s3, log := logOf nm u k })
-        | .notif => some (s2, { status := .code 202, srv := names s2, log := logOf nm u k })
-        | _ => some (s2, { status := .code 200, hdr := hdrOf k nm, srv := names s2, log := logOf nm u k })
+        | .notif => some (s2, { status := .code 202, srv := names s2, log := logOf nm u k, closed := told s nm })
+        | _ => some (s2, { status := .code 200, hdr := hdrOf k nm, srv := names s2, log := logOf nm u k, closed := told s nm })
   | .release k =>
     if k = 0 || k > s.nslow || s.released.contains k then some (s, { status := .noop, srv := names s })
     else
       let s1 := { s with released := s.released ++ [k] }
       match s.slow.find? (·.slot == k) with
-      | some _ =>
+      | some p =>
         let s2 := { s1 with slow := s1.slow.filter (·.slot != k) }
-        some (s2, { status := .ok, done := [(.p k, 200)], srv := names s2 })
+        -- the server-side `Close()` calls that waited for this handler return too (with the store's error, if any)
+        let cls := (s.closing.filter (· == k)).map fun _ => ((Tag.c 0, if s.es && s.failClosed then 2 else 1) : Tag × Nat)
+        let s3 := { s2 with closing := s2.closing.filter (· != k) }
+        some (s3, { status := .ok, done := (.p k, 200) :: cls, srv := names s3, closed := told s p.name })
       | none => some (s1, { status := .ok, srv := names s1 })
   | .get ref _ =>
     match s.mode with
@@ -106,7 +115,20 @@ def modelOp (s : State) (op : Op) : Option (State × Obs) :=
     | .legacy => some (s, rejectObs s stStatelessNotPost)
     | .noIds => some (s, rejectObs s stOtherMethod)
   | .tick _ => some (s, { status := .ok, srv := names s })
-  | .fault _ => some (s, { status := .noop, srv := names s })     -- (no event store in these configurations)
+  -- the store's failures (of `SessionClosed`) change nothing here: `serveEphemeral` drops what `Close` returns
+  | .fault f => some ({ s with failClosed := f.closed }, { status := if s.es then .ok else .noop, srv := names s })
+  -- `ServerSession.Close()` on the temporary session with that id, found through `Server.Sessions()`: it waits for
+  -- the running handler; the POST is answered and the store told when the handler returns (`release`)
+  | .close ref =>
+    match s.mode, ref.name with
+    | .legacy, some n =>
+      match s.slow.filter (·.name == n) with
+      | [] => some (s, { status := .noop, srv := names s })
+      | [p] => some ({ s with closing := s.closing ++ [p.slot] }, { status := .pending, srv := names s })
+      | _ => none     -- several temporary sessions under one id: which of them `Server.Sessions()` yields last is open
+    | _, _ => some (s, { status := .noop, srv := names s })     -- (a session without id cannot be named)
+  -- the client of a parked POST goes away: the POST waits in `session.Close()` for its handler — nothing observable
+  | .abandon k => some (s, { status := if s.slow.any (·.slot == k) then .ok else .noop, srv := names s })
   | _ => none
 
 /-- The observation trace of the model over an operation list. -/
@@ -117,7 +139,7 @@ def modelTraceFrom (s : State) : List Op → List (Op × Obs)
     | some (s', o) => (op, o) :: modelTraceFrom s' ops
     | none => modelTraceFrom s ops
 
-def modelTrace (m : Mode) (ops : List Op) : List (Op × Obs) := modelTraceFrom { mode := m } ops
+def modelTrace (m : Mode) (es : Bool) (ops : List Op) : List (Op × Obs) := modelTraceFrom { mode := m, es := es } ops
 
 /-! ## the property monitor -/
 
@@ -137,10 +159,12 @@ inductive EClause where
   | rejectedReached                         -- a handler ran for a request that was refused
   | misrouted                               -- legacy: the handler's session is not the one the request named
   | timerLeft                               -- an idle timer although no session is ever kept
+  | storeTold (want got : Nat)              -- `SessionClosed` calls ≠ temporary sessions that ended in this operation
 deriving DecidableEq, Repr
 
 structure MState where
   mode : Mode
+  es : Bool := false    -- the handler has an `EventStore`
   seen : Nat := 0       -- the largest ordinal of a minted id that a response, a handler or the server has shown
   inprog : Nat := 0     -- POSTs answered `pending` whose completion has not been seen
 deriving DecidableEq, Repr
@@ -225,13 +249,26 @@ def chkKept (ms : MState) (o : Obs) : Option EClause :=
   else if !o.stale.isEmpty then some .timerLeft
   else none
 
+/-- Temporary sessions that ended during this operation: a served POST that was answered, and every completion. -/
+def isPostTag : Tag × Nat → Bool
+  | (.p _, _) => true
+  | _ => false
+
+def ended (m : Mode) (op : Op) (o : Obs) : Nat :=
+  (if served m op && (o.status == .code 200 || o.status == .code 202) then 1 else 0) + (o.done.filter isPostTag).length
+
+/-- the event store is told exactly once per temporary session that ends (never without a store) -/
+def chkTold (ms : MState) (op : Op) (o : Obs) : Option EClause :=
+  let want := if ms.es then ended ms.mode op o else 0
+  if o.closed.length == want then none else some (.storeTold want o.closed.length)
+
 def firstOf : List (Option EClause) → Option EClause
   | [] => none
   | some c :: _ => some c
   | none :: t => firstOf t
 
 def judge (ms : MState) (op : Op) (o : Obs) : Option EClause × MState :=
-  let v := firstOf [chkAnswer ms.mode op o.status, chkHdr ms op o.hdr, chkLog ms.mode op o.log, chkKept ms o]
+  let v := firstOf [chkAnswer ms.mode op o.status, chkHdr ms op o.hdr, chkLog ms.mode op o.log, chkKept ms o, chkTold ms op o]
   let seen := max ms.seen (max (maxOrd (o.hdr.toList)) (max (maxOrd (o.log.map (·.sess))) (maxOrd o.srv)))
   (v, { ms with seen := seen, inprog := bookInprog ms o })
 
